@@ -126,7 +126,8 @@ def takesPart (t : Tree) (l : Leaf) : Bool := visible t l && l.decl.tag != .skip
 
 /-- candidates for a destination leaf in ToX -/
 def candsTo (inp : Input) (d : Leaf) : List (Leaf × Strat) :=
-  if !(takesPart inp.dest d && writable inp.dest inp.destNew d) then [] else
+  -- a field the user's manual write hook assigns is the hook's business
+  if !(takesPart inp.dest d && writable inp.dest inp.destNew d) || inp.manualW.contains d.decl.name then [] else
   (leavesOf inp.src).filterMap (fun s =>
     if takesPart inp.src s && readable inp.srcNew s &&
        specNameMatch inp.ic (effName inp.srcNew s) (twinName inp.destNew d.decl.name) then
@@ -135,7 +136,7 @@ def candsTo (inp : Input) (d : Leaf) : List (Leaf × Strat) :=
 
 /-- candidates for a source leaf in FromX -/
 def candsFrom (inp : Input) (s : Leaf) : List (Leaf × Strat) :=
-  if !(takesPart inp.src s && writable inp.src inp.srcNew s) then [] else
+  if !(takesPart inp.src s && writable inp.src inp.srcNew s) || inp.manualR.contains s.decl.name then [] else
   (leavesOf inp.dest).filterMap (fun d =>
     if takesPart inp.dest d && readable inp.destNew d &&
        specNameMatch inp.ic (effName inp.srcNew s) (twinName inp.destNew d.decl.name) then
@@ -171,6 +172,15 @@ def obsLeaf (o : Outcome) (l : Leaf) : String :=
   | .nil => "nil"
 
 /-! ## Observables of C05 (model side, spec side) -/
+
+/-- among the partners a field could claim (written side not a getter) there is at most one — what
+    accessor mode still has when `uniquePairs` fails (a getter and a setter pseudo-field of one field
+    both match the partner) -/
+def uniqueClaimable (inp : Input) : Bool :=
+  let p := plan inp
+  let ps := pairs inp.nm p.srcFields p.destFields
+  ps.all (fun a => ps.all (fun b => !(a.1 == b.1) || a.2.isGet || b.2.isGet || a.2 == b.2)) &&
+  ps.all (fun a => ps.all (fun b => !(a.2 == b.2) || a.1.isGet || b.1.isGet || a.1 == b.1))
 
 /-- `{{if not .IsFromOnly}}` / `{{if not .IsToOnly}}`: which methods are emitted -/
 def toGen (inp : Input) : Bool := inp.way != .fromOnly
@@ -286,12 +296,12 @@ def noUnderscore (n : String) : Bool := !n.toList.contains '_'
 
 def allNames (t : Tree) : List String := (leavesOf t).map (·.decl.name)
 
-/-- embedded structs of an accessor-mode type: by value, themselves flat accessor-mode types, no marks or tags inside -/
+/-- embedded structs of an accessor-mode type (themselves accessor-mode types, by value or by pointer,
+    to any depth): no `new` marks or tags inside -/
 def newEmbedsOk : Tree → Bool
   | .nil => true
   | .field _ rest => newEmbedsOk rest
-  | .embed _ p body rest =>
-    !p && (embedNames body).isEmpty && (allDecls body).all (fun d => !d.newMark && d.tag == .none) && newEmbedsOk rest
+  | .embed _ _ body rest => (allDecls body).all (fun d => !d.newMark && d.tag == .none) && newEmbedsOk rest
 
 /-- the accessor-mode shape of C15: fields plus embedded accessor-mode structs (one level), distinct twins,
     directives only on unexported fields -/
@@ -437,16 +447,35 @@ def stmtTablesOk (rs ws : SideSem) (alloc : List (List String)) (c : Claim) : Bo
 
 def hasFunc (cs : List Claim) : Bool := cs.any (fun c => match c.strat with | .func _ => true | _ => false)
 
-/-- C09 is asserted where: plain exported structs (C05's pairs), the mapper type not embedded by
-    pointer (or unused), and the emitted path tables are closed under "outer pointer first" -/
-def WF09 (inp : Input) : Bool :=
+/-- the emitted path tables are closed under "outer pointer first" (what the execution lemmas need;
+    DERIVED from `WF09` in Proofs/MapperTables.lean, not a clause of it) -/
+def TablesOk (inp : Input) : Bool :=
   let p := plan inp
   let t := tables inp p
-  !inp.srcNew && !inp.destNew &&
-  (inp.mapperPtr != some true || (!hasFunc p.toStmts && !hasFunc p.fromStmts)) &&
   chainOk inp.destSem.ptrs [] t.destAlloc && chainOk inp.srcSem.ptrs [] t.srcAlloc &&
   p.toStmts.all (stmtTablesOk inp.srcSem inp.destSem t.destAlloc) &&
   p.fromStmts.all (stmtTablesOk inp.destSem inp.srcSem t.srcAlloc)
+
+/-- the generator's `Path` of the field is the path Go resolves the emitted selector to -/
+def pathAgrees (tree : Tree) (f : Field) : Bool :=
+  match resolveField tree f with
+  | some l => l.path == f.path
+  | none => false
+
+/-- no promoted field is called like an embedded pointer type (else `CoveredBy`'s suffix test fires by accident) -/
+def suffixFree (pp : List (List String)) (fields : List Field) : Bool :=
+  fields.all (fun f => pp.all (fun p => !coveredBy f p || f.path == p || (p.isPrefixOf f.path && p.length < f.path.length)))
+
+/-- C09 is asserted where: plain exported structs (C05's pairs), the mapper type not embedded by
+    pointer (or unused), every emitted selector resolves to the field the generator means, and no
+    promoted field is named like an embedded pointer type. No clause about the emitted tables. -/
+def WF09 (inp : Input) : Bool :=
+  let p := plan inp
+  !inp.srcNew && !inp.destNew &&
+  (inp.mapperPtr != some true || (!hasFunc p.toStmts && !hasFunc p.fromStmts)) &&
+  suffixFree inp.destSem.ptrs p.destFields && suffixFree inp.srcSem.ptrs p.srcFields &&
+  p.toStmts.all (fun c => pathAgrees inp.src c.rd && pathAgrees inp.dest c.wr) &&
+  p.fromStmts.all (fun c => pathAgrees inp.dest c.rd && pathAgrees inp.src c.wr)
 
 /-- F_ptrMapper: the mapper type is embedded BY POINTER and a generated method calls one of its
     (value-receiver) methods: ToX panics when the pointer is nil, FromX always — it has just reset the receiver -/
@@ -593,12 +622,35 @@ def F_ctorTag (inp : Input) : Bool :=
 /-- F_ctorZeroAny: see `ctorZeroFatal` -/
 def F_ctorZeroAny (inp : Input) : Bool := ctorZeroFatal inp
 
+/-- the leaf lies below an embedded POINTER struct -/
+def underPtr (t : Tree) (l : Leaf) : Bool := (properPrefixes l.path).any (ptrPaths [] t).contains
+
+/-- F_ctorPtrEmbed: the constructor parameters that initialise a POINTER-embedded struct
+    (`Base: &Base{id: id}`) are not recovered (extractFromCompositeLit ignores `&T{…}`): a constructor-only
+    field down there is never written -/
+def F_ctorPtrEmbed (inp : Input) : Bool :=
+  (toGen inp && inp.destNew && (leavesOf inp.dest).any (fun l => ctorOnly l && underPtr inp.dest l && (candsTo inp l).length == 1)) ||
+  (fromGen inp && inp.srcNew && (leavesOf inp.src).any (fun l => ctorOnly l && underPtr inp.src l && (candsFrom inp l).length == 1))
+
+def isPanic : Outcome → Bool
+  | .panic => true
+  | _ => false
+
+/-- F_ptrEmbedSetter: an accessor-mode type embeds another one BY POINTER and the constructor is not
+    used (no parameter found a value): the method calls a promoted setter through the nil embedded
+    pointer of the fresh / reset value and panics -/
+def F_ptrEmbedSetter (inp : Input) : Bool :=
+  (inp.srcNew || inp.destNew) &&
+  ((toGen inp && isPanic (execTo inp [])) || (fromGen inp && isPanic (execFrom inp [])))
+
 def region15 (inp : Input) : String :=
   if !grammarOk inp || !(inp.srcNew || inp.destNew) || !namesOk inp then "Out"
   else if F_ctorZeroAny inp then "F_ctorZeroAny"
   else if F_setOnlyRead inp then "F_setOnlyRead"
   else if !modelCompiles inp then "Out"
+  else if F_ptrEmbedSetter inp then "F_ptrEmbedSetter"
   else if F_skipTagNew inp then "F_skipTagNew"
+  else if F_ctorPtrEmbed inp then "F_ctorPtrEmbed"
   else if F_ctorNoSub inp then "F_ctorNoSub"
   else if F_ctorTag inp then "F_ctorTag"
   else if F_ctorPriority inp then "F_ctorPriority"
